@@ -1095,7 +1095,8 @@ def ops2(m, run, fname, helper, sign):
 # ====================================================================================== C13: control point managers (pure integer code)
 def mg2(m, run):
     """MG2: <K>Manager(sizes).find_index(u[, v[, w]]) is the canonical flat index v + Sv*(u + Su*w) - pure integer code, interpreted
-    exactly for every index tuple of a box of pairwise different sizes (whichever class in the hierarchy implements it)"""
+    exactly for every index tuple of a box of pairwise different sizes, on a manager built by its own constructor chain (whichever class in
+    the hierarchy implements the index)"""
     import itertools as _it
     for cname, boxes in (('CurveManager', [(4,), (7,)]), ('SurfaceManager', [(3, 4), (5, 2)]), ('VolumeManager', [(2, 3, 4), (4, 2, 3), (3, 5, 2)])):
         fi = m.lookup(('control_points', cname), 'find_index', 'methods')
@@ -1104,7 +1105,15 @@ def mg2(m, run):
         bad = None
         n = 0
         for sizes in boxes:
-            obj = Bag(('control_points', cname), _size=list(sizes), _points=[], _pt_data={}, _cache={}, _attachment={}, _num_ctrlpts=0)
+            try:
+                sk0 = SK(m, dict(STD_ABSTRACTED))
+                sk0.construct = True
+                obj = sk0.apply(('class', ('control_points', cname)), list(sizes), {}, None)       # the manager's own constructor chain
+            except Violation as v:
+                bad = bad or (sizes, '-', 'the constructor fails: %s' % v.msg, 'an object')
+                continue
+            except Unsupported as ex:
+                raise AnalysisError('control_points.%s: interpreter met an unsupported construct in the constructor: %s' % (cname, ex))
             for coord in _it.product(*[range(s_) for s_ in sizes]):
                 sk = SK(m, dict(STD_ABSTRACTED))
                 try:
